@@ -40,6 +40,8 @@ impl<'a> CharCounter<'a>
 	}
 	
 	
+	/// Returns the 0-based line and the 0-based column (counted
+	/// in characters) of the given byte index into the source.
 	pub fn get_line_column_at_index(
 		&self,
 		index: usize)
@@ -48,24 +50,26 @@ impl<'a> CharCounter<'a>
 		let mut line = 0;
 		let mut column = 0;
 		
-		let mut i = 0;
-		while i < index && i < self.chars.len()
+		for (byte_index, c) in self.src.char_indices()
 		{
-			if self.chars[i] == '\n'
+			if byte_index >= index
+				{ break; }
+
+			if c == '\n'
 			{
 				line += 1;
 				column = 0;
 			}
 			else
 				{ column += 1; }
-			
-			i += 1;
 		}
 		
 		(line, column)
 	}
 	
 	
+	/// Returns the range of byte indices into the source that
+	/// the given 0-based line occupies, including its newline.
 	pub fn get_index_range_of_line(
 		&self,
 		line: usize)
@@ -73,27 +77,26 @@ impl<'a> CharCounter<'a>
 	{
 		let mut line_count = 0;
 		let mut line_begin = 0;
+		let mut line_end = self.src.len();
 		
-		while line_count < line && line_begin < self.chars.len()
+		for (byte_index, c) in self.src.char_indices()
 		{
-			line_begin += 1;
-			
-			if self.chars[line_begin - 1] == '\n'
-				{ line_count += 1; }
+			if c != '\n'
+				{ continue; }
+
+			if line_count == line
+			{
+				line_end = byte_index + 1;
+				break;
+			}
+
+			line_count += 1;
+			line_begin = byte_index + 1;
 		}
+
+		if line_count < line
+			{ line_begin = self.src.len(); }
 		
-		let mut line_end = line_begin;
-		while line_end < self.chars.len()
-		{
-			line_end += 1;
-			
-			if self.chars[line_end - 1] == '\n'
-				{ break; }
-		}
-		
-		(
-			line_begin.try_into().unwrap(),
-			line_end.try_into().unwrap()
-		)
+		(line_begin, line_end)
 	}
 }
